@@ -4,6 +4,7 @@ package main
 
 import (
 	"fmt"
+	"os"
 	"go/types"
 	"strings"
 )
@@ -129,6 +130,15 @@ func (fx *FX) evalExpr(env *Env, e Expr) Val {
 		}
 		if c, ok := fx.u.specConst(x.Name); ok {
 			return c
+		}
+		if os.Getenv("GOVC_DEBUG") != "" {
+			var ks []string
+			for k := range fx.names {
+				ks = append(ks, k)
+			}
+			sv := fx.names[x.Name]
+			_, have := fx.vals[sv]
+			fmt.Fprintf(os.Stderr, "DEBUG unknown %s in %s callee=%v sv=%T %v have=%v\n", x.Name, fx.name, env.calleeMode, sv, sv, have)
 		}
 		fx.fail("contract: unknown name %q", x.Name)
 		return VInt{num(0)}
@@ -475,6 +485,14 @@ func (fx *FX) evalCall(env *Env, c ECall) Val {
 					return r
 				}
 			}
+		}
+	case "qhas", "qval": // abstract contents of a string->string map value (local map, url.Values)
+		if mv, ok := argv(0).(VMap); ok {
+			g := fx.mapGhost(env.st, mv.Ref)
+			if c.Fn == "qhas" {
+				return VBool{app(SBool, "qhas", g, seq(1))}
+			}
+			return VSeq{app(SSeq, "qval", g, seq(1))}
 		}
 	case "maphas", "mapget": // lookup in a package-level literal map: maphas(knownSuites, key)
 		if id, ok := c.Args[0].(EIdent); ok {
